@@ -98,6 +98,6 @@ def queries(tier):
     return qs
 
 MANIFEST = {
-    "text": "Bounded symbolic check of the real lmq.c / msgqueue.c ring code and idhash.c: one operation from an arbitrary invariant-satisfying state (ring allocation / table layout concrete, indices, lengths, capacities and keys symbolic) against FIFO-sequence and finite-map reference semantics. Waiting readers and writers of msgqueue.c are served first come first served and the queue plus its blocked writers drain as one FIFO; id-map histories filled exactly to the grow threshold so that the symbolic-key set is the one that resizes.",
+    "text": "Bounded symbolic check of the real lmq.c / msgqueue.c ring code and idhash.c: one operation from an arbitrary invariant-satisfying state (ring allocation / table layout concrete, indices, lengths, capacities and keys symbolic) against FIFO-sequence and finite-map reference semantics. Waiting readers and writers of msgqueue.c are served first come first served and the queue plus its blocked writers drain as one FIFO; id-map histories filled exactly to the grow threshold so that the symbolic-key set is the one that resizes. Also nni_id_alloc32 (the form every issue site uses) incl. what a refused call stores (finding F28: an uninitialised identifier - repaired); lmq resize with a pointer-word copy model inside the unit (CBMC's built-in memcpy model is imprecise for a source pointer at a symbolic offset).",
     "note": "Inductive step + init establishes invariant; rings up to 8 slots; id-map layouts generated by running the real insertion algorithm.",
 }
